@@ -247,6 +247,11 @@ def run(ctx, scale):
       ("search_next", dict(flavour="mixed", layout="search", n=10, budget_frac=0.8, num_to_sample=2)),
       ("random", dict(flavour="priors", num_to_sample=3)),
     ]
+    # small fully discrete domains with duplicate-heavy histories: proposals collide with the history, so the
+    # refill of replace_duplicate_points decides whether the requested count is met (shape of F5)
+    for ep in ("gp_next", "gp_next", "search_next", "gp_next"):
+      corpus.append((ep, dict(flavour="discrete", layout="search" if ep == "search_next" else "single", n=18, repeat_pool=rng.choice([3, 5, 7]),
+                              tasks=0, pending=0, num_to_sample=rng.choice([2, 3, 4]), budget_frac=0.8)))
     for ep, over in corpus:
       specs.append(G.gen_request(rng, ep, **over))
   for ep, n in plan.items():
